@@ -138,6 +138,104 @@ func hashCommitShape(P *Program, R *Report, rule string) {
 	}
 }
 
+// unrollLiteralAppendLoop: x is the loop-carried list of `for _, v := range <slice literal> { if v != nil { x = append(x, v) } }`;
+// returns the list before the loop and one optional entry per literal element.
+func unrollLiteralAppendLoop(x *ssa.Phi) (ssa.Value, []string, bool) {
+	l := findLoop(x.Block())
+	if l == nil {
+		return nil, nil, false
+	}
+	var init ssa.Value
+	var app *ssa.Call
+	keeps := false
+	var consider func(e ssa.Value) bool
+	consider = func(e ssa.Value) bool {
+		if e == ssa.Value(x) {
+			keeps = true
+			return true
+		}
+		if c, isC := e.(*ssa.Call); isC && isCallTo(c, "builtin:append") && callArgs(c)[0] == ssa.Value(x) && app == nil {
+			app = c
+			return true
+		}
+		// the merge of the two inside the body
+		if lp, isPhi := e.(*ssa.Phi); isPhi && lp != x && l.Body[lp.Block()] {
+			for _, ee := range lp.Edges {
+				if !consider(ee) {
+					return false
+				}
+			}
+			return true
+		}
+		return false
+	}
+	for k, p := range x.Block().Preds {
+		if !l.Body[p] {
+			if init != nil {
+				return nil, nil, false
+			}
+			init = x.Edges[k]
+			continue
+		}
+		if !consider(x.Edges[k]) {
+			return nil, nil, false
+		}
+	}
+	if init == nil || !keeps || app == nil {
+		return nil, nil, false
+	}
+	t, ok := seqTail(callArgs(app)[1], 0, map[ssa.Value]bool{})
+	if !ok || len(t) != 1 {
+		return nil, nil, false
+	}
+	// the appended element is literal[i] of the loop's own index, the literal a fully known list
+	ld, isLoad := t[0].V.(*ssa.UnOp)
+	if !isLoad {
+		return nil, nil, false
+	}
+	ia, isIA := ld.X.(*ssa.IndexAddr)
+	if !isIA || !strings.HasSuffix(desc(ia.Index), "#i") && !strings.HasPrefix(desc(ia.Index), "#") {
+		return nil, nil, false
+	}
+	if ph, isPhi := stripConv(ia.Index).(*ssa.BinOp); isPhi {
+		_ = ph
+	}
+	elems, ok := seqOf(ia.X)
+	if !ok || len(elems) == 0 || len(elems) > 8 {
+		return nil, nil, false
+	}
+	for _, e := range elems {
+		if e.Kind != "elem" {
+			return nil, nil, false
+		}
+	}
+	// the loop walks exactly that literal
+	walks := false
+	for _, wl := range rangeLoopsOver(x.Parent(), func(d string) bool { return d == desc(ia.X) }) {
+		if wl.Header == l.Header {
+			walks = true
+		}
+	}
+	if !walks {
+		return nil, nil, false
+	}
+	// guarded by elem != nil and nothing else inside the loop
+	var conds []Atom
+	for _, a := range controllingConds(app.Block()) {
+		if ins, isI := a.V.(ssa.Instruction); isI && l.Body[ins.Block()] && ins.Block() != l.Header {
+			conds = append(conds, normAtom(a))
+		}
+	}
+	if len(conds) != 1 || desc(conds[0].V) != "("+t[0].D+"!=nil)" || conds[0].Want != True {
+		return nil, nil, false
+	}
+	var out []string
+	for _, e := range elems {
+		out = append(out, fmt.Sprintf("?%s if (%s!=nil) is true", e.D, e.D))
+	}
+	return init, out, true
+}
+
 func init() {
 	register("C15",
 		Rule{ID: "C15.a", Explain: "HashCommit: exactly one encoder (encoding/asn1.Marshal) over a slice built here whose elements are [true iff issig], the element count len(values), then values[i].Go() for every i in order; one SHA-256 over exactly the marshal result; the returned integer is SetBytes of the whole digest (path-split evaluation for issig = true/false).",
@@ -289,6 +387,12 @@ func getHashNumberRule(P *Program, R *Report) {
 					if ok && len(t) == 1 {
 						cond := ""
 						for _, a := range controllingConds(x.Block()) {
+							// (leaving a loop that ran before this append is not a condition on the append)
+							if ins, isI := a.V.(ssa.Instruction); isI {
+								if hl := findLoop(ins.Block()); hl != nil && !hl.Body[x.Block()] {
+									continue
+								}
+							}
 							a = normAtom(a)
 							cond = fmt.Sprintf(" if %s is %s", desc(a.V), a.Want)
 							break
@@ -299,6 +403,13 @@ func getHashNumberRule(P *Program, R *Report) {
 					continue
 				}
 			case *ssa.Phi:
+				// a loop over a literal list that appends each non-nil element (`for _, v := range []*big.Int{a, b} { if v != nil
+				// { l = append(l, v) } }`): the unrolled optional appends, in the literal's order
+				if init, unrolled, ok := unrollLiteralAppendLoop(x); ok {
+					tail = append(unrolled, tail...)
+					v = init
+					continue
+				}
 				// optional append: phi(prev, append(prev, x))
 				var next ssa.Value
 				for _, e := range x.Edges {
